@@ -233,3 +233,30 @@ func (a *Analysis) Overlap(x, y ssa.Value) bool {
 	}
 	return false
 }
+
+// FieldWrites returns the struct fields (of objects not created by fn itself) that fn or its
+// callees may write: "pkg.Type.field" -> witness.
+func (a *Analysis) FieldWrites(fn *ssa.Function) map[string]*Effect {
+	out := map[string]*Effect{}
+	st := a.fs[fn]
+	if st == nil {
+		return out
+	}
+	for _, e := range st.effects {
+		if e.Kind == "fieldwrite" {
+			out[e.Field] = e
+		}
+	}
+	return out
+}
+
+// TrackedMods returns the effects of fn on tracked regions, parameters and package-level state.
+func (a *Analysis) TrackedMods(fn *ssa.Function) []*Effect {
+	var out []*Effect
+	for _, e := range a.Effects(fn) {
+		if e.Kind == "mod" || e.Kind == "ptrwrite" || e.Kind == "contwrite" {
+			out = append(out, e)
+		}
+	}
+	return out
+}
